@@ -28,7 +28,8 @@ defaulted attributes first into `res`, then the positional arguments, then `kw_o
 the argument list is kept in declaration order; arguments are bound to attributes by position in that list
 (attrs forbids a mandatory positional attribute after a defaulted one, so the positional arguments of the fast
 template bind to exactly the attributes they were computed for).  Only `init=True` attributes are modelled.
-Not modelled (generator never produces them): bare `Final` with a default (L40-56), `RecursionError` (L62-64),
+`RecursionError` (L62-64, reference cycles): `Disp.cycle` / `Handler.late` / `Env.late`.
+Not modelled (generator never produces them): bare `Final` with a default (L40-56),
 per-attribute overrides (`override.struct_hook`, `rename`, `omit`), non-mapping payloads.
 -/
 namespace CattrsModel
@@ -54,11 +55,16 @@ inductive Disp where
   | raiseError                -- the (legacy) fallback factory returns `raise_error`
   | structureCall             -- `BaseConverter._structure_call`
   | fn (h : Obj → HR)         -- any other hook
+  | cycle                     -- the lookup raises `RecursionError`: the type is (or wraps) a class whose hook is being
+                              -- generated right now (`already_generating`) — a reference cycle; the hook exists once
+                              -- generation has finished, and `c.structure(x, t)` reaches it at call time
   deriving Inhabited
 
 structure Env (T : Type) where
   disp : T → Disp
   construct : T → Obj → HR
+  /-- `c.structure(x, t)` at call time, for a type whose lookup ended in a `RecursionError` while a hook was generated -/
+  late : T → Obj → HR := fun _ _ => .fail
 
 /-- an `init=True` attrs attribute -/
 structure FField (T : Type) where
@@ -79,6 +85,7 @@ inductive Handler (T : Type) where
   | none                        -- `handler = None`
   | found (t : T) (d : Disp)    -- the object returned by `c.get_structure_hook(t)`
   | structure                   -- `c.structure`
+  | late (t : T)                -- `c.structure` returned by the outer `except RecursionError` (L62-64), called on `(x, t)`
 
 /-- `find_structure_handler(a, type, c, prefer_attrs_converters)`; `none` = the call raises
 (`StructureHandlerNotFoundError` out of the unguarded lookup of L58) -/
@@ -94,6 +101,7 @@ def findHandler (env : Env T) (prefer : Bool) (f : FField T) : Option (Handler T
       | .raiseError => some .none                                   -- L37-38 `handler == raise_error`
       | .structureCall => some (.found t .structureCall)
       | .fn h => some (.found t (.fn h))
+      | .cycle => some (.late t)                                    -- not caught by L33: reaches L62-64, late binding
     | Option.none => some .structure                                -- (unreachable)
   else
     match f.ty with
@@ -104,6 +112,7 @@ def findHandler (env : Env T) (prefer : Bool) (f : FField T) : Option (Handler T
       | .raiseError => some (.found t .raiseError)
       | .structureCall => some (.found t .structureCall)
       | .fn h => some (.found t (.fn h))
+      | .cycle => some (.late t)                                    -- L62-64
     | Option.none => some .structure                                -- L60
 
 /-! ### what a template emits for a handler -/
@@ -115,6 +124,7 @@ def callDisp (env : Env T) (t : T) : Disp → Obj → HR
   | .raiseError, _ => .shnf              -- `raise_error(x, t)`
   | .structureCall, x => env.construct t x   -- templates: the *type* is bound to the handler name, `t(o[k])`
   | .fn h, x => h x
+  | .cycle, x => env.late t x            -- interpretive path: no hook is being generated, the dispatch returns the hook
 
 /-- the expression emitted for the attribute: `o[k]` when `handler` is `None`/falsy, `t(o[k])` when it is
 `_structure_call`, `handler(o[k], t)` otherwise; `c.structure(o[k], None)` dispatches on `None`, whose hook
@@ -123,6 +133,7 @@ def applyHandler (env : Env T) : Handler T → Obj → HR
   | .none, x => .ok x
   | .found t d, x => callDisp env t d x
   | .structure, x => .ok x
+  | .late t, x => env.late t x
 
 /-- handlers of all attributes, computed when the hook is generated; `none` = generation raises -/
 def genHandlers (env : Env T) (prefer : Bool) : List (FField T) → Option (List (FField T × Handler T))
@@ -283,6 +294,7 @@ def hasHook (env : Env T) (t : T) : Bool :=
   match env.disp t with
   | .structureCall => true
   | .fn _ => true
+  | .cycle => true            -- the hook exists: it is the one being generated
   | .notFound => false
   | .lookupFails => false
   | .raiseError => false
@@ -296,12 +308,14 @@ def lookupBroken (env : Env T) (t : T) : Bool :=
   | .raiseError => false
   | .structureCall => false
   | .fn _ => false
+  | .cycle => false
 
 /-- "the result of `T`'s structure hook" on `raw` (`none`: there is no hook, or it raises) -/
 def hookResult (env : Env T) (t : T) (raw : Obj) : Option Obj :=
   match env.disp t with
   | .structureCall => (env.construct t raw).toOption
   | .fn h => (h raw).toOption
+  | .cycle => (env.late t raw).toOption
   | .notFound => Option.none
   | .lookupFails => Option.none
   | .raiseError => Option.none
@@ -363,7 +377,8 @@ def eagerField (env : Env T) (prefer : Bool) (f : FField T) : Bool :=
       | .lookupFails => !(f.conv.isSome && prefer)
       | .raiseError => false
       | .structureCall => false
-      | .fn _ => false)
+      | .fn _ => false
+      | .cycle => false)
   | Option.none => false
 
 def eagerFail (env : Env T) (prefer : Bool) (fields : List (FField T)) : Bool := fields.any (eagerField env prefer)
@@ -375,7 +390,8 @@ def NoLazyEscape (env : Env T) (prefer : Bool) (fields : List (FField T)) : Prop
 
 /-- F36 excluded: a hook that was found does not raise `StructureHandlerNotFoundError` itself -/
 def NoDeepSHNF (env : Env T) : Prop :=
-  (∀ t h x, env.disp t = .fn h → h x ≠ .shnf) ∧ (∀ t x, env.disp t = .structureCall → env.construct t x ≠ .shnf)
+  (∀ t h x, env.disp t = .fn h → h x ≠ .shnf) ∧ (∀ t x, env.disp t = .structureCall → env.construct t x ≠ .shnf) ∧
+  (∀ t x, env.disp t = .cycle → env.late t x ≠ .shnf)
 
 end FieldConv
 end CattrsModel
